@@ -26,9 +26,218 @@ pub struct FsImage {
     /// that displace a few entries pick from these half of the time, because an order dependence
     /// usually hinges on the few entries that differ from the crowd
     pub special: BTreeMap<String, Vec<u32>>,
+    /// files whose modification time differs from the one the pristine image gives them (an
+    /// earlier version of the data, see `Drift`)
+    pub mtime_salt: BTreeMap<String, u64>,
+}
+
+/// One difference between the bundled data and an *earlier version* of it that an earlier run of a
+/// session saw (a CLDR update happened in between). The judged run always sees the bundled data.
+#[derive(Clone, Debug, PartialEq, Eq)]
+pub enum Drift {
+    /// the earlier version lacked this child directory (it was added since)
+    MissingDir { dir: String, name: String },
+    /// the earlier version had one more child directory (removed since): a copy of `clone_of` in
+    /// which every quoted occurrence of that name reads `name`
+    ExtraDir { dir: String, name: String, clone_of: String },
+    /// the earlier version of child `name` said what child `content_of` says now (with the names
+    /// exchanged); its files carry a different modification time
+    OtherContent { dir: String, name: String, content_of: String },
+    /// the earlier version of this file lacked some of its lines (entries added since); different
+    /// modification time
+    MissingLines { file: String, lines: Vec<u32> },
+    /// two entries of this file had each other's value; different modification time
+    SwappedValues { file: String, a: u32, b: u32 },
 }
 
 impl FsImage {
+    fn requote(content: &[u8], from: &str, to: &str) -> Vec<u8> {
+        let text = String::from_utf8_lossy(content);
+        text.replace(&format!("\"{}\"", from), &format!("\"{}\"", to)).into_bytes()
+    }
+
+    /// the image an earlier run saw
+    pub fn with_drift(&self, drift: &[Drift]) -> FsImage {
+        let mut img = FsImage {
+            crate_dir: self.crate_dir.clone(),
+            files: self.files.clone(),
+            dirs: self.dirs.clone(),
+            digest: self.digest,
+            bytes: self.bytes,
+            special: self.special.clone(),
+            mtime_salt: self.mtime_salt.clone(),
+        };
+        for (n, d) in drift.iter().enumerate() {
+            let salt = 0x0dd + n as u64;
+            match d {
+                Drift::MissingDir { dir, name } => {
+                    if let Some(c) = img.dirs.get_mut(dir) {
+                        c.retain(|(x, _)| x != name);
+                    }
+                    let prefix = format!("{}/{}/", dir, name);
+                    img.files.retain(|k, _| !k.starts_with(&prefix));
+                    img.dirs.retain(|k, _| !k.starts_with(&prefix) && *k != format!("{}/{}", dir, name));
+                }
+                Drift::ExtraDir { dir, name, clone_of } => {
+                    let from = format!("{}/{}/", dir, clone_of);
+                    let copies: Vec<(String, Arc<Vec<u8>>)> = self
+                        .files
+                        .range(from.clone()..)
+                        .take_while(|(k, _)| k.starts_with(&from))
+                        .map(|(k, v)| (format!("{}/{}/{}", dir, name, &k[from.len()..]), Arc::new(Self::requote(v, clone_of, name))))
+                        .collect();
+                    if copies.is_empty() {
+                        continue;
+                    }
+                    let subdir_children: Vec<(String, bool)> = self.dirs.get(&format!("{}/{}", dir, clone_of)).cloned().unwrap_or_default();
+                    img.dirs.insert(format!("{}/{}", dir, name), subdir_children);
+                    for (k, v) in copies {
+                        img.mtime_salt.insert(k.clone(), salt);
+                        img.files.insert(k, v);
+                    }
+                    if let Some(c) = img.dirs.get_mut(dir) {
+                        if !c.iter().any(|(x, _)| x == name) {
+                            c.push((name.clone(), true));
+                            c.sort();
+                        }
+                    }
+                }
+                Drift::OtherContent { dir, name, content_of } => {
+                    let from = format!("{}/{}/", dir, content_of);
+                    let copies: Vec<(String, Arc<Vec<u8>>)> = self
+                        .files
+                        .range(from.clone()..)
+                        .take_while(|(k, _)| k.starts_with(&from))
+                        .map(|(k, v)| (format!("{}/{}/{}", dir, name, &k[from.len()..]), Arc::new(Self::requote(v, content_of, name))))
+                        .collect();
+                    for (k, v) in copies {
+                        if img.files.contains_key(&k) {
+                            img.mtime_salt.insert(k.clone(), salt);
+                            img.files.insert(k, v);
+                        }
+                    }
+                }
+                Drift::MissingLines { file, lines } => {
+                    if let Some(v) = img.files.get(file).cloned() {
+                        let text = String::from_utf8_lossy(&v).into_owned();
+                        let kept: Vec<&str> = text
+                            .split_inclusive('\n')
+                            .enumerate()
+                            .filter(|(i, _)| !lines.contains(&(*i as u32)))
+                            .map(|(_, l)| l)
+                            .collect();
+                        img.files.insert(file.clone(), Arc::new(kept.concat().into_bytes()));
+                        img.mtime_salt.insert(file.clone(), salt);
+                    }
+                }
+                Drift::SwappedValues { file, a, b } => {
+                    if let Some(v) = img.files.get(file).cloned() {
+                        let text = String::from_utf8_lossy(&v).into_owned();
+                        let mut ls: Vec<String> = text.split_inclusive('\n').map(|l| l.to_string()).collect();
+                        let (a, b) = (*a as usize, *b as usize);
+                        if a < ls.len() && b < ls.len() {
+                            // `"key": value,` lines: exchange what follows the first colon
+                            if let (Some(ia), Some(ib)) = (ls[a].find(':'), ls[b].find(':')) {
+                                let (va, vb) = (ls[a][ia..].to_string(), ls[b][ib..].to_string());
+                                ls[a] = format!("{}{}", &ls[a][..ia], vb);
+                                ls[b] = format!("{}{}", &ls[b][..ib], va);
+                            }
+                        }
+                        img.files.insert(file.clone(), Arc::new(ls.concat().into_bytes()));
+                        img.mtime_salt.insert(file.clone(), salt);
+                    }
+                }
+            }
+        }
+        img
+    }
+
+    /// lines of `file` that look like one `"key": "value",` entry of a long list
+    fn entry_lines(content: &[u8]) -> Vec<u32> {
+        let text = String::from_utf8_lossy(content);
+        text.split_inclusive('\n')
+            .enumerate()
+            .filter(|(_, l)| {
+                let t = l.trim();
+                t.starts_with('"') && t.ends_with("\",") && t.matches('"').count() == 4 && t.contains("\": \"")
+            })
+            .map(|(i, _)| i as u32)
+            .collect()
+    }
+
+    /// Draw the differences of an earlier data version (one to three), biased towards the entries
+    /// that stand out in the data.
+    pub fn draw_drift(&self, rng: &mut Rng) -> Vec<Drift> {
+        let big_dirs: Vec<&String> = self.dirs.iter().filter(|(_, c)| c.len() >= 8).map(|(k, _)| k).collect();
+        let big_files: Vec<(&String, Vec<u32>)> = self
+            .files
+            .iter()
+            .filter(|(_, v)| v.len() > 20_000)
+            .map(|(k, v)| (k, Self::entry_lines(v)))
+            .filter(|(_, l)| l.len() >= 16)
+            .collect();
+        let mut out = vec![];
+        let n = 1 + rng.below(3);
+        for _ in 0..n {
+            let use_dir = !big_dirs.is_empty() && (big_files.is_empty() || rng.chance(2, 3));
+            if use_dir {
+                let dir = big_dirs[rng.below(big_dirs.len() as u64) as usize];
+                let children = &self.dirs[dir];
+                let special: &[u32] = self.special.get(dir).map(|v| v.as_slice()).unwrap_or(&[]);
+                let pick = |rng: &mut Rng, biased: bool| -> String {
+                    let i = if biased && !special.is_empty() {
+                        special[rng.below(special.len() as u64) as usize] as usize
+                    } else {
+                        rng.below(children.len() as u64) as usize
+                    };
+                    children[i].0.clone()
+                };
+                match rng.below(3) {
+                    0 => {
+                        let biased = rng.chance(1, 2);
+                        out.push(Drift::MissingDir { dir: dir.clone(), name: pick(rng, biased) })
+                    }
+                    1 => {
+                        let src = pick(rng, true);
+                        // a private-use language code in place of the language subtag
+                        let q = format!("q{}{}", (b'a' + rng.below(20) as u8) as char, (b'a' + rng.below(26) as u8) as char);
+                        let name = match src.split_once(|c| c == '-' || c == '_') {
+                            Some((_, rest)) => format!("{}-{}", q, rest),
+                            None => q,
+                        };
+                        if !children.iter().any(|(x, _)| *x == name) {
+                            out.push(Drift::ExtraDir { dir: dir.clone(), name, clone_of: src });
+                        }
+                    }
+                    _ => {
+                        let flip = rng.chance(1, 2);
+                        let a = pick(rng, flip);
+                        let b = pick(rng, !flip);
+                        if a != b {
+                            out.push(Drift::OtherContent { dir: dir.clone(), name: a, content_of: b });
+                        }
+                    }
+                }
+            } else if !big_files.is_empty() {
+                let (file, lines) = &big_files[rng.below(big_files.len() as u64) as usize];
+                if rng.chance(1, 2) {
+                    let k = 1 + rng.below(4);
+                    let mut l: Vec<u32> = (0..k).map(|_| lines[rng.below(lines.len() as u64) as usize]).collect();
+                    l.sort();
+                    l.dedup();
+                    out.push(Drift::MissingLines { file: (*file).clone(), lines: l });
+                } else {
+                    let a = lines[rng.below(lines.len() as u64) as usize];
+                    let b = lines[rng.below(lines.len() as u64) as usize];
+                    if a != b {
+                        out.push(Drift::SwappedValues { file: (*file).clone(), a, b });
+                    }
+                }
+            }
+        }
+        out
+    }
+
     /// Load `<crate_dir>/data` (recursively) from the real file system, once per process.
     pub fn load(crate_dir: &Path) -> Result<FsImage, String> {
         let mut img = FsImage {
@@ -38,6 +247,7 @@ impl FsImage {
             digest: 0,
             bytes: 0,
             special: BTreeMap::new(),
+            mtime_salt: BTreeMap::new(),
         };
         let root = crate_dir.join("data");
         if !root.is_dir() {
@@ -235,10 +445,16 @@ pub enum Decision {
     Timeout { fired: bool },
     /// an optional external tool (`rustfmt`) is asked for: is it installed on this machine?
     Program { name: String, available: bool },
+    /// the program holds a few hundred files open at once: what is this machine's soft limit on
+    /// open file descriptors (`ulimit -n`: 256 on macOS, 1024 on most Linux distributions)?
+    FdLimit { n: u32 },
 }
 
 pub const NO_DEVIATION: u32 = u32::MAX;
 pub const DEFAULT_CORES: u32 = 8;
+pub const DEFAULT_FD_LIMIT: u32 = 1024;
+/// open descriptors at which the machine's limit becomes a decision of the run
+pub const FD_DECISION_THRESHOLD: u64 = 200;
 
 impl Decision {
     pub fn is_default(&self) -> bool {
@@ -250,6 +466,7 @@ impl Decision {
             Decision::Cores { n } => *n == DEFAULT_CORES,
             Decision::Timeout { fired } => !*fired,
             Decision::Program { available, .. } => *available,
+            Decision::FdLimit { n } => *n == DEFAULT_FD_LIMIT,
         }
     }
     pub fn defaulted(&self) -> Decision {
@@ -278,6 +495,7 @@ impl Decision {
                 name: name.clone(),
                 available: true,
             },
+            Decision::FdLimit { .. } => Decision::FdLimit { n: DEFAULT_FD_LIMIT },
         }
     }
     /// scheduling deviations live in their own stream (keyed by step), `Open` decisions are keyed
@@ -622,6 +840,9 @@ pub struct RunStats {
     pub shuttle_runs: u64,
     pub programs_spawned: u64,
     pub programs_missing: u64,
+    pub fd_limit_decisions: u64,
+    pub emfile: u64,
+    pub max_open_fds: u64,
 }
 
 impl RunStats {
@@ -658,6 +879,9 @@ impl RunStats {
         self.shuttle_runs += o.shuttle_runs;
         self.programs_spawned += o.programs_spawned;
         self.programs_missing += o.programs_missing;
+        self.fd_limit_decisions += o.fd_limit_decisions;
+        self.emfile += o.emfile;
+        self.max_open_fds = self.max_open_fds.max(o.max_open_fds);
     }
 }
 
@@ -667,6 +891,85 @@ pub struct IterRecord {
     pub kind: char,
     /// fixed-key hash of each key in the order it was yielded
     pub ids: Vec<u64>,
+}
+
+/// What survives a process: the files earlier runs of a session left behind (on top of the
+/// image), their modification times, the wall clock. One `Disk` is handed from run to run of a
+/// *session* (a history of generator executions on one machine, some of them cut short).
+#[derive(Clone, Debug, Default)]
+pub struct Disk {
+    pub files: BTreeMap<String, Vec<u8>>,
+    pub mtimes: BTreeMap<String, u64>,
+    /// image files that were deleted
+    pub removed: std::collections::BTreeSet<String>,
+    pub clock_ns: u64,
+    /// decides the (arbitrary, checkout-time) modification times of the image files
+    pub mtime_seed: u64,
+}
+
+pub const CLOCK_START_NS: u64 = 1_700_000_000_000_000_000;
+
+impl Disk {
+    pub fn fresh(mtime_seed: u64) -> Disk {
+        Disk {
+            clock_ns: CLOCK_START_NS,
+            mtime_seed,
+            ..Default::default()
+        }
+    }
+    pub fn digest(&self) -> u64 {
+        let mut d = Fnv::default();
+        for (k, v) in &self.files {
+            d.str(k);
+            d.bytes(v);
+        }
+        for k in &self.removed {
+            d.str(k);
+        }
+        d.0
+    }
+}
+
+#[derive(Clone, Copy, Debug, PartialEq, Eq, PartialOrd, Ord)]
+pub enum CrashKind {
+    /// the process dies (SIGKILL, Ctrl-C, panic=abort, OOM killer): everything the completed
+    /// `write` calls handed to the kernel survives; a write in progress may be cut short
+    Kill,
+    /// the machine loses power: what was not made durable (`sync_all`/`sync_data`) may be lost,
+    /// torn or — for a rename whose source was never synced — replaced by an empty or partial file
+    PowerLoss,
+}
+
+impl CrashKind {
+    pub fn name(self) -> &'static str {
+        match self {
+            CrashKind::Kill => "kill",
+            CrashKind::PowerLoss => "power_loss",
+        }
+    }
+}
+
+/// Where an earlier run of a session is cut short: at its `at`-th crash point (file-system
+/// mutations and prints, counted from 0). A run with fewer crash points completes.
+#[derive(Clone, Copy, Debug, PartialEq, Eq)]
+pub struct CrashPlan {
+    pub at: u64,
+    pub kind: CrashKind,
+    pub salt: u64,
+}
+
+/// what the seam does at a crash point
+#[derive(Clone, Copy, Debug, PartialEq, Eq)]
+pub enum Gate {
+    Go,
+    /// the process image is already gone: the operation has no effect
+    Gone,
+    /// crash now, the operation is not applied
+    CrashBefore,
+    /// apply the operation, then crash
+    CrashAfter,
+    /// data write: only the first n bytes reach the file, then crash
+    Torn(usize),
 }
 
 pub struct World {
@@ -714,6 +1017,30 @@ pub struct World {
     /// the program asked for an external tool that this simulated machine does not have: a
     /// fail-stop afterwards is not judged
     pub missing_program: bool,
+    /// modification times of the files in `written`
+    pub mtimes: BTreeMap<String, u64>,
+    /// image files this session deleted
+    pub removed: std::collections::BTreeSet<String>,
+    /// for every path this run modified: its content at the last durable point (start of the run,
+    /// or its last `sync_all`); `None` = did not exist
+    pub pre: BTreeMap<String, Option<Vec<u8>>>,
+    /// files whose current content was made durable (`sync_all`/`sync_data` after the last write)
+    pub synced: std::collections::BTreeSet<String>,
+    /// crash points passed so far (file-system mutations and prints)
+    pub crash_points: u64,
+    pub fs_mutations: u64,
+    pub crash: Option<CrashPlan>,
+    pub crashed: Option<CrashKind>,
+    pub torn_write: bool,
+    pub mtime_seed: u64,
+    pub metadata_queries: u64,
+    /// descriptors the program holds open right now (stdio + files + directory handles)
+    pub open_fds: u64,
+    pub fd_limit: Option<u32>,
+    /// an `open` failed with EMFILE in this run: a fail-stop afterwards is not judged
+    pub fd_exhausted: bool,
+    /// tasks that yielded (polled) since they last ran: not offered while others can run
+    pub yielded: std::collections::BTreeSet<u32>,
 }
 
 thread_local! {
@@ -735,6 +1062,17 @@ pub fn uninstall() -> World {
 /// set when a seam is reached from a thread the simulator does not own (the generator spawned
 /// threads): the harness then reports a harness error instead of a verdict
 pub static FOREIGN_THREAD_SEAM_USE: std::sync::atomic::AtomicBool = std::sync::atomic::AtomicBool::new(false);
+
+/// like `with`, for destructors that may run after the world is gone
+pub fn try_with<R>(f: impl FnOnce(&mut World) -> R) -> Option<R> {
+    WORLD
+        .try_with(|c| match c.try_borrow_mut() {
+            Ok(mut b) => b.as_mut().map(f),
+            Err(_) => None,
+        })
+        .ok()
+        .flatten()
+}
 
 pub fn with<R>(f: impl FnOnce(&mut World) -> R) -> R {
     WORLD.with(|c| {
@@ -770,7 +1108,7 @@ impl World {
             frozen: false,
             sched_digest: Fnv::default(),
             pct: None,
-            clock_ns: 1_700_000_000_000_000_000,
+            clock_ns: CLOCK_START_NS,
             stalled: false,
             stdout_plan: None,
             stdout_eintr: 0,
@@ -778,7 +1116,210 @@ impl World {
             yield_probe: None,
             under_shuttle: false,
             missing_program: false,
+            mtimes: BTreeMap::new(),
+            removed: Default::default(),
+            pre: BTreeMap::new(),
+            synced: Default::default(),
+            crash_points: 0,
+            fs_mutations: 0,
+            crash: None,
+            crashed: None,
+            torn_write: false,
+            mtime_seed: 0,
+            metadata_queries: 0,
+            open_fds: 3,
+            fd_limit: None,
+            fd_exhausted: false,
+            yielded: Default::default(),
         }
+    }
+
+    /// The program opens one more descriptor. `Err` = the machine's limit is reached (EMFILE).
+    /// The limit becomes a decision of the run the moment the program holds a few hundred
+    /// descriptors at once; a program that opens one file at a time never gets near it.
+    pub fn fd_open(&mut self) -> Result<(), ()> {
+        if self.open_fds + 1 > FD_DECISION_THRESHOLD && self.fd_limit.is_none() {
+            let n = match &mut self.mode {
+                Mode::Random { aux, profile, .. } => {
+                    if profile.cover_iter.is_some() {
+                        DEFAULT_FD_LIMIT
+                    } else {
+                        [256, 256, 1024, 1024, 4096][aux.below(5) as usize]
+                    }
+                }
+                Mode::Replay(ReplayPlan { q, .. }) => match q.front() {
+                    Some(Decision::FdLimit { n }) => {
+                        let n = *n;
+                        q.pop_front();
+                        n
+                    }
+                    _ => {
+                        self.diverged = true;
+                        DEFAULT_FD_LIMIT
+                    }
+                },
+            };
+            self.fd_limit = Some(n);
+            self.stats.fd_limit_decisions += 1;
+            self.event("fd_limit", n as u64, 0);
+            self.trace.push(Decision::FdLimit { n });
+        }
+        if let Some(l) = self.fd_limit {
+            if self.open_fds + 1 > l as u64 {
+                self.fd_exhausted = true;
+                self.stats.emfile += 1;
+                self.event("emfile", self.open_fds, 0);
+                return Err(());
+            }
+        }
+        self.open_fds += 1;
+        self.stats.max_open_fds = self.stats.max_open_fds.max(self.open_fds);
+        Ok(())
+    }
+
+    /// Start this run on what earlier runs of the session left behind.
+    pub fn load_disk(&mut self, d: &Disk) {
+        self.written = d.files.clone();
+        self.mtimes = d.mtimes.clone();
+        self.removed = d.removed.clone();
+        self.clock_ns = d.clock_ns;
+        self.mtime_seed = d.mtime_seed;
+    }
+
+    /// What this run leaves behind. After a power loss every path modified since its last durable
+    /// point ends up, by a seeded choice, with its old content, its new content or — when the new
+    /// content was never synced — a prefix of it (possibly empty).
+    pub fn disk_after(&self) -> Disk {
+        let mut files = self.written.clone();
+        let mut mtimes = self.mtimes.clone();
+        let mut removed = self.removed.clone();
+        if let (Some(CrashKind::PowerLoss), Some(plan)) = (self.crashed, self.crash) {
+            for (key, old) in &self.pre {
+                let live = self.written.get(key).cloned();
+                if live == *old {
+                    continue;
+                }
+                let mut h = Fnv::default();
+                h.str(key);
+                h.u64(plan.salt);
+                let mut r = Rng::new(h.0);
+                let synced = self.synced.contains(key);
+                // 0 = old, 1 = new, 2 = torn prefix of new, 3 = empty
+                let pick = match (&live, synced) {
+                    (Some(_), true) => r.below(2),
+                    (Some(_), false) => [0, 0, 1, 1, 1, 2, 2, 3][r.below(8) as usize],
+                    (None, _) => r.below(2), // removal durable or not
+                };
+                let result: Option<Vec<u8>> = match pick {
+                    0 => old.clone(),
+                    1 => live.clone(),
+                    2 => live.as_ref().map(|v| v[..r.below(v.len() as u64 + 1) as usize].to_vec()),
+                    _ => live.as_ref().map(|_| vec![]),
+                };
+                match result {
+                    Some(v) => {
+                        files.insert(key.clone(), v);
+                        mtimes.entry(key.clone()).or_insert(self.clock_ns);
+                        removed.remove(key);
+                    }
+                    None => {
+                        files.remove(key);
+                        mtimes.remove(key);
+                        if self.image.files.contains_key(key) {
+                            removed.insert(key.clone());
+                        }
+                    }
+                }
+            }
+        }
+        Disk {
+            files,
+            mtimes,
+            removed,
+            clock_ns: self.clock_ns,
+            mtime_seed: self.mtime_seed,
+        }
+    }
+
+    /// One crash point: a file-system mutation (`data_len` = bytes of a data write) or a print.
+    pub fn gate(&mut self, mutation: bool, data_len: Option<usize>) -> Gate {
+        if self.frozen {
+            return Gate::Gone;
+        }
+        let idx = self.crash_points;
+        self.crash_points += 1;
+        if mutation {
+            self.fs_mutations += 1;
+        }
+        let Some(plan) = self.crash else { return Gate::Go };
+        // a process that is already dying of a panic (destructors flushing buffers while the
+        // stack unwinds) is not crashed a second time
+        if plan.at != idx || std::thread::panicking() {
+            return Gate::Go;
+        }
+        let mut r = Rng::new(plan.salt ^ 0x6a7e);
+        let g = match data_len {
+            Some(n) if n > 0 => match r.below(4) {
+                0 => Gate::CrashBefore,
+                1 => Gate::CrashAfter,
+                _ => {
+                    self.torn_write = true;
+                    Gate::Torn(r.below(n as u64 + 1) as usize)
+                }
+            },
+            _ => {
+                if r.chance(1, 2) {
+                    Gate::CrashBefore
+                } else {
+                    Gate::CrashAfter
+                }
+            }
+        };
+        self.event("crash", idx, plan.kind as u64);
+        g
+    }
+
+    /// The process image goes away now (called by the seam right after `gate` said so).
+    pub fn crash_now(&mut self) {
+        let kind = self.crash.map(|c| c.kind).unwrap_or(CrashKind::Kill);
+        self.crashed = Some(kind);
+        self.frozen = true;
+    }
+
+    /// modification time of an image file: checkout time, arbitrary per file
+    pub fn image_mtime(&self, key: &str) -> u64 {
+        let mut h = Fnv::default();
+        h.str(key);
+        h.u64(self.mtime_seed);
+        if let Some(s) = self.image.mtime_salt.get(key) {
+            h.u64(*s);
+        }
+        CLOCK_START_NS - 1 - h.0 % (30 * 86_400 * 1_000_000_000u64)
+    }
+
+    /// bookkeeping before a path is modified: remember its last durable content, it is no longer
+    /// synced, its modification time is now
+    pub fn touch(&mut self, key: &str) {
+        if !self.pre.contains_key(key) {
+            let old = self.written.get(key).cloned().or_else(|| {
+                if self.removed.contains(key) {
+                    None
+                } else {
+                    self.image.files.get(key).map(|d| (**d).clone())
+                }
+            });
+            self.pre.insert(key.to_string(), old);
+        }
+        self.synced.remove(key);
+        self.clock_ns += 1_000;
+        self.mtimes.insert(key.to_string(), self.clock_ns);
+    }
+
+    /// `sync_all`/`sync_data` on a file: its current content is durable
+    pub fn mark_synced(&mut self, key: &str) {
+        let cur = self.written.get(key).cloned();
+        self.pre.insert(key.to_string(), cur);
+        self.synced.insert(key.to_string());
     }
 
     pub fn event(&mut self, tag: &str, a: u64, b: u64) {
@@ -1055,14 +1596,32 @@ impl World {
             runnable
         };
         let cur_runnable = cur_runnable && runnable.contains(&current.unwrap());
+        // The default choice (no preemption, else lowest id) must be fair among pollers: with
+        // "lowest id other than the yielder" two polling threads hand the CPU to each other for
+        // ever while the workers they wait for starve. A task that yielded is therefore passed
+        // over by the default until every other runnable task had its turn. (The seeded policies
+        // below choose among all of `runnable`; they are fair with probability one.)
+        if yielding {
+            if let Some(c) = current {
+                self.yielded.insert(c);
+            }
+        }
         let default = if cur_runnable && !yielding {
             current.unwrap()
         } else {
-            // lowest id, preferring another task than a yielding one
-            *runnable
-                .iter()
-                .find(|t| Some(**t) != current)
-                .unwrap_or(&runnable[0])
+            match runnable.iter().find(|t| !self.yielded.contains(t)) {
+                Some(t) => *t,
+                None => {
+                    // everybody who can run has yielded since its last turn: a new round
+                    self.yielded.clear();
+                    if yielding {
+                        if let Some(c) = current {
+                            self.yielded.insert(c);
+                        }
+                    }
+                    runnable[0]
+                }
+            }
         };
         let pick = if runnable.len() == 1 {
             runnable[0]
@@ -1123,6 +1682,7 @@ impl World {
         if current.is_some() && Some(pick) != current {
             self.stats.context_switches += 1;
         }
+        self.yielded.remove(&pick);
         self.sched_digest.u64(pick as u64);
         if runnable.len() > 1 {
             self.event("sched", step, pick as u64);
